@@ -19,12 +19,15 @@ from common import cz, clist, cnat, copt, digest
 
 LEVEL = "proof"
 THEOREMS = "Props/C10.v"
-EXTRA_TARGETS = ("Neigh/Run.vo",)
+EXTRA_TARGETS = ("Neigh/Run.vo", "Neigh/ApiRun.vo")
 EXTS = ["neighbors", "neighborlist", "_geometry"]
 RULE = ("frames on a 2^-10 nm grid: 1..3000 atoms x {uniform in the cell, clustered, on voxel boundaries, "
         "outside the primary cell (images -2..2), fractional coordinates} x cutoff {tiny, medium, half the "
         "shortest width, above it (tie only)} x cell {none, cubic, orthorhombic, triclinic, periodic=False}; "
         "compute_neighbors additionally x query/haystack subsets (overlapping, default haystack, invalid index); "
+        "whole wrapper calls: 1-4 frames with per-frame cells x periodic given/omitted/False x empty/repeated/negative/out-of-range "
+        "query x haystack omitted/None/empty/repeated/invalid x list/tuple/int32/int64 indices x compute_neighborlist frame "
+        "omitted/negative/out of range; "
         "a case is non-trivial when at least one pair is within the cutoff; distinct by hash of the whole case")
 TRUSTED = ["harness/impl/neigh_impl.py (builds the Trajectory, reports the float32 cell as exact integers)",
            "generator and float64 brute-force oracle in harness/props/C10.py; model-vs-implementation comparison "
@@ -287,6 +290,59 @@ def gen_coincident_case(rng, api, kind, pattern=None):
     return case
 
 
+def gen_api_case(rng):
+    """one WHOLE call of a wrapper (neighbors.pyx / neighborlist.pyx) on a small multi-frame trajectory: all frames of
+    compute_neighbors (per-frame cells, default / omitted / empty / repeated haystack, empty / repeated / negative /
+    out-of-range query indices, periodic flag given or omitted, trajectory with or without cells), compute_neighborlist
+    with its frame argument (omitted, negative, out of range); indices passed as list / tuple / int32 / int64 arrays"""
+    api = rng.choice(["nb", "nb", "nl"])
+    T = rng.randint(1, 4)
+    n = rng.choice([2, 3, 5, 8, 13])
+    ck = rng.choice(["none", "ortho", "tric", "mixed", "mixed"])
+    if ck == "none":
+        cells = None
+    else:
+        cells = [gen_cell(rng, ck if ck != "mixed" else rng.choice(["cubic", "ortho", "tric"])) for _ in range(T)]
+    if cells is None:
+        c = rng.randint(200, 1400)
+    else:
+        c = min(gen_cutoff(rng, cl, "mid") for cl in cells)
+    frames = [gen_positions(rng, n, cells[f] if cells else None, rng.choice(["uniform", "outside", "faces", "clustered"]) if cells else
+                            rng.choice(["uniform", "clustered"]), c) for f in range(T)]
+    case = {"apicall": True, "api": api, "frames": frames, "cells": cells, "c": c, "periodic": rng.random() > 0.25,
+            "idx_type": rng.choice(["int64", "int32", "list", "tuple"]), "kind": "apicall/" + ck}
+    if api == "nb":
+        q = rng.sample(range(n), rng.randint(1, min(n, 4)))
+        r = rng.random()
+        if r < 0.12:
+            q = []
+        elif r < 0.27:
+            q = q + [q[0]]
+        elif r < 0.42:
+            q = q + [rng.choice([-1, -n, n, n + 2])]
+        rng.shuffle(q)
+        r = rng.random()
+        hay, omitted = None, False
+        if r < 0.15:
+            omitted = True
+        elif r < 0.3:
+            hay = None
+        elif r < 0.4:
+            hay = []
+        elif r < 0.55:
+            hay = [rng.randrange(n) for _ in range(rng.randint(2, n + 3))]          # with repetitions
+        elif r < 0.65:
+            hay = rng.sample(range(n), rng.randint(1, n)) + [rng.choice([-1, n, n + 1])]
+        else:
+            hay = rng.sample(range(n), rng.randint(1, n))
+        case.update(query=q, hay=hay, hay_omitted=omitted, periodic_omitted=case["periodic"] and rng.random() < 0.3)
+    else:
+        fr = rng.choice([0, T - 1, -1, -T, -T - 1, T, T + 3, rng.randrange(-T, T)])
+        omitted = rng.random() < 0.15
+        case.update(frame=0 if omitted else fr, frame_omitted=omitted)
+    return case
+
+
 def gen_seq_case(rng, api):
     """history across calls: one multi-frame trajectory whose cell changes from frame to frame ("traj"), or consecutive
     calls in one process ("calls"); consecutive cells share a_x and differ in ONE other respect (b, c, an angle,
@@ -376,6 +432,9 @@ def build_cases(ctx, scale=1.0):
     for api in ("nb", "nb", "nl"):
         for _ in range(int((5 if quick else 40) * scale) or 1):
             cases.append(gen_seq_case(rng, api))
+    # whole calls of the wrappers (all frames, default arguments, invalid indices, frame selection) -- in every run
+    for _ in range(int((70 if quick else 700) * scale) or 1):
+        cases.append(gen_api_case(rng))
     # medium and large frames
     med = [(200, 5), (600, 1)] if quick else [(200, 40), (600, 12), (1500, 4)]
     for n, cnt in med:
@@ -389,7 +448,7 @@ def build_cases(ctx, scale=1.0):
           [("ortho", "uniform"), ("none", "clustered"), ("cubic", "outside"), ("tric", "uniform"), ("ortho", "boundary")]
     if scale >= 1.0:
         for kind, dist in big:
-            cs = gen_case(rng, "nl", 1500 if (quick and kind == "none") else 3000, kind, dist, "low")
+            cs = gen_case(rng, "nl", (1500 if kind == "none" else 2500) if quick else 3000, kind, dist, "low")
             if cs["cell"] is None:
                 cs["c"] = int(0.25 * G)
             else:
@@ -673,7 +732,171 @@ def coq_codes(ctx, coq, sizes):
     return codes, errors
 
 
+def eval_codes(ctx, requires, ty, fn, items, tag, shard=50):
+    """Eval vm_compute of (fn item) for every item inside coqc; items are Coq terms of type ty, fn: ty -> Z.
+    Returns ({index: code}, errors); only a list of small integers is parsed (with an element-count check)."""
+    import os
+    import re
+    import subprocess
+    from common import COQ
+    shards = [list(range(i, min(i + shard, len(items)))) for i in range(0, len(items), shard)]
+    procs = []
+    for si, sh in enumerate(shards):
+        lines = ["From Coq Require Import ZArith List Bool.", "Import ListNotations.",
+                 "Require Import %s." % " ".join(requires), "Open Scope Z_scope.", "Set Printing Depth 100000.",
+                 "Definition items : list (%s) := [" % ty, ";\n".join(items[k] for k in sh), "].",
+                 "Eval vm_compute in (7777, map (%s) items)." % fn]
+        path = os.path.join(ctx.tmp, "%s_%d.v" % (tag, si))
+        with open(path, "w") as fh:
+            fh.write("\n".join(lines) + "\n")
+        procs.append((sh, path))
+    codes, errors = {}, []
+    running, todo = [], list(procs)
+    while todo or running:
+        while todo and len(running) < 4:
+            sh, path = todo.pop(0)
+            pr = subprocess.Popen(["timeout", "900", "coqc", "-Q", COQ, "MD", path], cwd=ctx.tmp,
+                                  stdout=subprocess.PIPE, stderr=subprocess.STDOUT, text=True)
+            running.append((pr, sh))
+        pr, sh = running.pop(0)
+        out = pr.communicate()[0]
+        if pr.returncode != 0:
+            errors.append("coqc rc=%s: %s" % (pr.returncode, out[-1500:]))
+            continue
+        m = re.search(r"\(7777,\s*(\[[^\]]*\]|nil)\s*\)", out, re.S)
+        if not m:
+            errors.append("unparsed coqc output: " + out[-1500:])
+            continue
+        vals = [int(x) for x in re.findall(r"-?\d+", m.group(1))]
+        if len(vals) != len(sh):
+            errors.append("wrong number of codes")
+            continue
+        for k, v in zip(sh, vals):
+            codes[k] = v
+    return codes, errors
+
+
+def api_summary(c):
+    return {"apicall": c["api"], "n": len(c["frames"][0]), "n_frames": len(c["frames"]), "cells": c["cells"], "c": c["c"],
+            "periodic": c.get("periodic"), "periodic_omitted": c.get("periodic_omitted"), "query": c.get("query"), "hay": c.get("hay"),
+            "hay_omitted": c.get("hay_omitted"), "frame": c.get("frame"), "frame_omitted": c.get("frame_omitted"),
+            "idx_type": c.get("idx_type"), "xyz_digest": digest(c["frames"])}
+
+
+def run_api_cases(ctx, cases):
+    """whole calls of the wrappers against coq/Neigh/Api.v (exact, evaluated inside coqc) and against the oracle"""
+    outs = run_impl_robust(ctx, "neigh_impl.py", cases, ("apicall", "api", "frames", "cells", "c", "periodic", "query", "hay", "hay_omitted",
+                                                        "periodic_omitted", "frame", "frame_omitted", "idx_type"),
+                           crash_out={"boxes": None, "K": 10, "res": None})
+    keep = [i for i, o in enumerate(outs) if o.get("err") != "NotRun"]
+    cases, outs = [cases[i] for i in keep], [outs[i] for i in keep]
+    items = []
+    for c, o in zip(cases, outs):
+        K = o["K"]
+        sh = K - 10
+        n = len(c["frames"][0])
+        T = len(c["frames"])
+        if o.get("boxes") is not None and any(not (b[0][1] == 0 and b[0][2] == 0 and b[1][2] == 0) for b in o["boxes"]):
+            ctx.break_("correspondence:cell-not-lower-triangular", "unitcell_vectors %s" % o["boxes"])
+            return outs
+        cells = "None" if o.get("boxes") is None else "(Some %s)" % clist(
+            ["(mkBox %s %s %s %s %s %s)" % tuple(cz(v) for v in (b[0][0], b[1][0], b[1][1], b[2][0], b[2][1], b[2][2])) for b in o["boxes"]])
+        traj = "(mkNT %s %s %s)" % (cnat(n), clist([clist([coq_vec(p, sh) for p in fr]) for fr in c["frames"]]), cells)
+        cu = c["c"] << sh
+        band = -(-(1 << K) // 100000)
+        q = clist([cz(x) for x in (c.get("query") or [])])
+        hay = "None" if (c.get("hay") is None or c.get("hay_omitted")) else "(Some %s)" % clist([cz(x) for x in c["hay"]])
+        inp = "(mkApi %s %s %s %s %s %s %s %s %s %s %s)" % (
+            "true" if c["api"] == "nb" else "false", traj, cz(cu * 100000 - (1 << K)), cz(cu * 100000 + (1 << K)), cz(100000),
+            cz(max(1, cu - band)), cz(cu + band), q, hay, cz(c.get("frame") or 0),
+            "true" if (c.get("periodic", True) or c.get("periodic_omitted")) else "false")
+        expected_err = "ValueError" if c["api"] == "nb" else "IndexError"
+        if o["err"] == expected_err:
+            exp = "None"
+        elif o["err"] is not None or not all(0 <= x < n + 50 for row in o["res"] for x in row):
+            exp = "(Some [[%s]])" % cnat(n + 51)
+        else:
+            exp = "(Some %s)" % clist([clist([cnat(x) for x in row]) for row in o["res"]])
+        items.append("(%s, %s)" % (inp, exp))
+    codes, errs = eval_codes(ctx, ["MD.Neigh.Model", "MD.Neigh.Api", "MD.Neigh.ApiRun"], "api_case * option (list (list nat))",
+                             "fun k => api_code (fst k) (snd k)", items, "apicodes") if items else ({}, [])
+    if errs:
+        ctx.break_("correspondence:coqc-evaluation(api)", "\n".join(errs))
+    extra = ctx.notes.setdefault("coverage_extra", {}).setdefault("wrapper_calls", {"compared_exactly": 0, "band_not_compared": 0, "differ": 0,
+                                                                                       "by_kind": {}})
+    bad = []
+    for k, (c, o) in enumerate(zip(cases, outs)):
+        code = codes.get(k, 1)
+        extra["compared_exactly" if code == 0 else ("band_not_compared" if code == 2 else "differ")] += 1
+        if code == 1:
+            bad.append(k)
+        # ---- the property on the implementation's own answer (independent of the Coq model)
+        n = len(c["frames"][0])
+        T = len(c["frames"])
+        fails = []
+        per = bool(c.get("periodic", True) or c.get("periodic_omitted"))
+
+        def frame_io(f, res):
+            cs = {"api": c["api"], "xyz": c["frames"][f], "c": c["c"], "periodic": per, "query": c.get("query"),
+                  "hay": None if c.get("hay_omitted") else c.get("hay")}
+            oo = {"box": o["boxes"][f] if o.get("boxes") else None, "K": o["K"], "res": res, "err": None}
+            return cs, oo
+        nwithin = 0
+        if c["api"] == "nb":
+            hay = [] if (c.get("hay") is None or c.get("hay_omitted")) else c["hay"]
+            bad_idx = any((i < 0 or i >= n) for i in list(c["query"]) + list(hay))
+            if bad_idx:
+                if o["err"] != "ValueError":
+                    fails.append(("no ValueError on an invalid index", o["err"] or o["res"]))
+            elif o["err"] is not None:
+                fails.append(("error", {"class": o["err"], "msg": o.get("msg")}))
+            elif len(o["res"]) != T:
+                fails.append(("one answer per frame expected", len(o["res"])))
+            else:
+                if o.get("dtypes") and any(not d.startswith("int") for d in o["dtypes"]):
+                    fails.append(("result arrays are not integer arrays", o["dtypes"]))
+                for f in range(T):
+                    cs, oo = frame_io(f, o["res"][f])
+                    fl, nw, _q = oracle_nb(cs, oo)
+                    nwithin += nw
+                    fails += [("frame %d: %s" % (f, kd), dt) for kd, dt in fl]
+        else:
+            fr = 0 if c.get("frame_omitted") else c["frame"]
+            if not (-T <= fr < T):
+                if o["err"] != "IndexError":
+                    fails.append(("no IndexError on a frame index out of range", o["err"] or "a result"))
+            elif o["err"] is not None:
+                fails.append(("error", {"class": o["err"], "msg": o.get("msg")}))
+            else:
+                cs, oo = frame_io(fr % T, o["res"])
+                fl, nw, _q = oracle_nl(cs, oo)
+                nwithin += nw
+                fails += [("frame %d: %s" % (fr, kd), dt) for kd, dt in fl]
+        bk = "apicall/%s/%s/%s" % (c["api"], (c.get("kind") or "").split("/")[-1], "periodic" if per else "nonperiodic")
+        extra["by_kind"][bk] = extra["by_kind"].get(bk, 0) + 1
+        ctx.count(api_summary(c), nontrivial=nwithin > 0 or o["err"] is not None, bucket=bk)
+        for kd, dt in fails:
+            apin = "compute_neighborlist" if c["api"] == "nl" else "compute_neighbors"
+            ctx.fail("%s (whole call through the wrapper): %s" % (apin, kd.split(": ")[-1] if kd.startswith("frame") else kd), c,
+                     observed={"detail": dt, "where": kd, "err": o["err"]},
+                     expected="per frame exactly the atoms within the cutoff; ValueError / IndexError exactly for invalid indices / frames",
+                     tags={"api": c["api"], "kind": kd.split(": ")[-1], "apicall": True, "explained_by": None}, stage="correspond")
+    if bad:
+        k = sorted(bad, key=lambda k: len(str(cases[k])))[0]
+        ctx.break_("correspondence:wrapper-model",
+                   "coq/Neigh/Api.v does not reproduce the wrapper on %d/%d whole calls; smallest: %s -> %s %s" % (
+                       len(bad), len(cases), api_summary(cases[k]), outs[k]["err"], str(outs[k]["res"])[:300]))
+    ctx.log("whole wrapper calls: %s" % {k: v for k, v in extra.items() if k != "by_kind"})
+    return outs
+
+
 def run_cases(ctx, cases, replaying=False):
+    api_cases = [c for c in cases if c.get("apicall")]
+    if api_cases:
+        api_outs = run_api_cases(ctx, api_cases)
+        cases = [c for c in cases if not c.get("apicall")]
+        if not cases:
+            return api_outs
     outs = run_impl_robust(ctx, "neigh_impl.py", cases, ("api", "xyz", "cell", "c", "periodic", "query", "hay", "seq", "mode"),
                            crash_out={"box": None, "K": 10, "res": None, "cd": None})
     ex_c, ex_o = [], []
@@ -745,6 +968,26 @@ def run_cases(ctx, cases, replaying=False):
             agree[i] = {v for b, v in enumerate(VARIANTS) if code >> b & 1}
     ctx.log("compute_neighborlist compared with the model: frames disagreeing with %s" % {
         v: sum(1 for i in nl_idx if v not in agree[i]) for v in VARIANTS})
+    # INFORMATIONAL: are the rows returned in the order of the loops of coq/Neigh/Bins.v (sorted bins, range 0 then range 1,
+    # completions ascending)?  The order inside a row is not part of the property: recorded, never a failure.
+    small = [i for i in nl_idx if outs[i]["err"] is None and 2 <= len(cases[i]["xyz"]) <= 21 and len(outs[i]["res"]) == len(cases[i]["xyz"])
+             and all(0 <= x < len(cases[i]["xyz"]) for a in outs[i]["res"] for x in a)][:(48 if ctx.tier == "quick" else 300)]
+    if small and not replaying:
+        items = []
+        for i in small:
+            c, o = cases[i], outs[i]
+            cell, cu, lo, hi, d, xyz = coq_common(c, o)
+            items.append("(%s, %s, %s, %s)" % (cell, cu, xyz, clist([clist([cnat(x) for x in a]) for a in o["res"]])))
+        ocodes, oerrs = eval_codes(ctx, ["MD.Neigh.Model", "MD.Neigh.ApiRun"], "option box * Z * list vec * list (list nat)",
+                                   "fun k => ll_order_code (fst (fst (fst k))) (snd (fst (fst k))) (snd (fst k)) (snd k)", items, "llorder", shard=12)
+        hist_o = ctx.notes.setdefault("coverage_extra", {}).setdefault(
+            "row_order_vs_lowlevel_model(informational)", {"frames": 0, "identical_order": 0, "same_set_other_order": 0, "different_set": 0,
+                                                           "not_evaluated": 0})
+        for k in range(len(small)):
+            v = ocodes.get(k)
+            hist_o["frames"] += 1
+            hist_o[{0: "identical_order", 1: "same_set_other_order", 2: "different_set"}.get(v, "not_evaluated")] += 1
+        ctx.log("row order vs low-level model (informational): %s%s" % (hist_o, (" coqc: " + oerrs[0][-200:]) if oerrs else ""))
     # which variant describes the implementation on ALL voxel-list cases of this run (most repaired preferred)
     variant = None
     if nl_idx:
@@ -814,7 +1057,7 @@ def shrink_unlisted(ctx):
     """reduce the atom set of failures that no known finding explains (a few implementation runs)"""
     for f in list(ctx.failures):
         c = f["case"]
-        if "seq" in c:
+        if "seq" in c or c.get("apicall"):
             continue
         if f["tags"].get("explained_by") or c["api"] != "nl" or len(c["xyz"]) <= 4 or f["tags"]["kind"] not in ("missing", "spurious"):
             continue
@@ -860,7 +1103,8 @@ FIXED_PROBES = [
 
 def correspond(ctx):
     cases = [dict(c) for c in FIXED_PROBES] + build_cases(ctx)
-    ctx.log("cases:", len(cases), "atoms:", sum(len(c["xyz"]) if "xyz" in c else sum(len(x["xyz"]) for x in c["seq"]) for c in cases))
+    ctx.log("cases:", len(cases), "atoms:", sum(len(c["xyz"]) if "xyz" in c else (sum(len(x) for x in c["frames"]) if c.get("apicall") else sum(len(x["xyz"]) for x in c["seq"]))
+                                           for c in cases))
     run_cases(ctx, cases)
     shrink_unlisted(ctx)
 
